@@ -154,8 +154,25 @@ class SplitSingleDim(Contract):
                 Cl("children-keep-coarsening", z3.And(*[c.fields["coarseningValue"] == so["coarseningValue"] for c in result.items])),
                 Cl("children-count-the-split", z3.And(*[c.fields["needExtendScheme"] == so["needExtendScheme"] + 1 for c in result.items])),
                 Cl("parent-box-unchanged", z3.And(*[z3.And(a == b, c == dd) for (a, c), (b, dd) in zip(box(env["self"]), pb)])),
+                # what the caller-side shape `result()` promises to refine(): the children's twin lists are their own copies of the parent's list with the
+                # two halves as each other's twin in dimension d
+                Cl("children-twins-are-copies-of-the-parents-with-each-other-in-d", self.twins_ok(old["self"], env["self"], result.items)),
                 ] + ownership_clauses(env["self"], result.items)
         return out
+
+    def twins_ok(self, parent_old, parent, kids):
+        pt = parent_old.fields.get("twins")
+        if not (isinstance(pt, Seq) and pt.concrete and len(pt.items) == self.dim):
+            return False
+        for i, k in enumerate(kids):
+            kt = k.fields.get("twins")
+            if not (isinstance(kt, Seq) and kt.concrete and len(kt.items) == self.dim) or kt is parent.fields.get("twins") or kt is kids[1 - i].fields.get("twins"):
+                return False
+            for j in range(self.dim):
+                want = kids[1 - i] if j == self.d else pt.items[j]
+                if kt.items[j] is not want:
+                    return False
+        return True
 
 
 class SplitArbitraryDim(Contract):
